@@ -1,10 +1,26 @@
-import OrdModel.Proofs.IndexInsloc
+import OrdModel.Proofs.IndexInslocReveal
 /-!
 # C03 — Inscriptions move with the sat they were inscribed on
 
 Property theorems only.  Model: `OrdModel/Index/{Inscriptions,Block}.lean`; derived definitions
 and the executable oracle: `OrdModel/Index/OracleInsloc.lean`; lemmas:
 `OrdModel/Proofs/IndexInsloc*.lean`.
+
+Proved here, at full strength for one transaction (any inputs, envelopes, pointers, values):
+where a floating inscription lands (`c03_output_placement`), the sat of a new inscription
+(`c03_new_inscription`), reveal offsets / pointers / the unbound flag (`c03_reveal`), transfers
+(`c03_transfer_offset`, `c03_old_inscription`), the fee carry (`c03_fee_carry`), lost
+inscriptions (`c03_lost_placement`, `c03_coinbase_lost_sats`), burned / lost / unbound charms,
+and that the oracle evaluated on the implementation's dump is the stated predicate
+(`c03_oracle_sound`).  The statement over reachable states
+
+    theorem c03_reachable (cfg blocks st) (hsats : cfg.indexSats) (hvalid : ValidChain cfg blocks)
+        (h : run cfg blocks = .ok st) : OnSat st
+
+is NOT proved: it needs C01's first-in-first-out equation for `indexTransactionSats` read
+pointwise (`den(out₁) ++ … ++ den(leftover) = den(inputs)`, sibling group `sats`), the block
+invariant `reward = subsidy + Σ fees so far`, `rangesValue (null entry) = lostSats`, and the lift
+through `indexTx` / `flushCache` shared with C04.
 -/
 namespace Ord.Index.Insloc
 open Ord Ord.Index
@@ -20,5 +36,195 @@ example : calculateSat [(10, 12), (50, 53)] 0 3 = .ok 51 := by decide
 (`ix.oracle.onsat`) is exactly "every inscription bound to a sat is located where the sat index
 has that sat". -/
 theorem c03_oracle_sound (st : State) : onSatB st = true ↔ OnSat st := onSatB_iff st
+
+/-- First-in-first-out placement: a floating inscription at input-concatenation offset `k` below
+the total output value lands in the output whose value interval contains `k`, at offset
+`k − (value of the earlier outputs)`, and is flagged with that output's OP_RETURN-ness; whatever
+is not placed lies at or beyond the total output value. -/
+theorem c03_output_placement (txid : Txid) (outs : List TxOut) (fls : List Flotsam) :
+    (∀ x ∈ (assignOutputs txid outs 0 0 (sortByKey (·.offset) fls) []).1,
+      ∃ j o, outs[j]? = some o ∧ x.2.1 ∈ sortByKey (·.offset) fls ∧
+        prefixValue outs j ≤ x.2.1.offset ∧ x.2.1.offset < prefixValue outs j + o.value ∧
+        x.1 = ⟨⟨txid, j⟩, x.2.1.offset - prefixValue outs j⟩ ∧ x.2.2 = o.opReturn) ∧
+    (∀ f ∈ (assignOutputs txid outs 0 0 (sortByKey (·.offset) fls) []).2.1,
+      (outs.map (·.value)).sum ≤ f.offset) ∧
+    ((assignOutputs txid outs 0 0 (sortByKey (·.offset) fls) []).1.map (·.2.1) ++
+      (assignOutputs txid outs 0 0 (sortByKey (·.offset) fls) []).2.1).Perm fls := by
+  obtain ⟨h1, h2⟩ := assignOutputs_place txid outs 0 0 (sortByKey (·.offset) fls) []
+    (sortByKey_sorted _ _) (fun _ _ => Nat.zero_le _)
+  obtain ⟨hc, _⟩ := assignOutputs_conserve txid outs 0 0 (sortByKey (·.offset) fls) []
+  refine ⟨fun x hx => ?_, fun f hf => by simpa using (h2 f hf).2, ?_⟩
+  · rcases h1 x hx with hacc | ⟨j, o, hj, hm, hlo, hhi, hsp, hop⟩
+    · simp at hacc
+    · exact ⟨j, o, hj, hm, by simpa using hlo, by simpa using hhi, by simpa using hsp, hop⟩
+  · rw [hc]; simpa using sortByKey_perm (·.offset) fls
+
+/-- Reveal: a new inscription floats at its pointer when the pointer is inside the outputs, else
+at the start of its input; it is flagged unbound when revealed on a zero-value input or carrying
+an unrecognised even field. -/
+theorem c03_reveal (st : State) (jub : Bool) (txid : Txid) (i off iv totalOut : Nat)
+    (envs : List Envelope) (sc sc' : ScanState)
+    (h : scanNew st jub txid i off iv totalOut envs sc = .ok sc') :
+    ∃ F, sc'.floating = sc.floating ++ F ∧
+      ∀ f ∈ F, isNew f = true ∧ ∃ env ∈ envs, f.offset = revealOffset env off totalOut ∧
+        (iv = 0 → flUnbound f = true) ∧ (env.unrecognizedEven = true → flUnbound f = true) :=
+  scanNew_flotsam st jub txid i off iv totalOut envs sc sc' h
+
+/-- Transfer: an inscription on a spent input floats at (value of the earlier inputs) + (its
+offset in the spent output), remembering its sequence number and old satpoint. -/
+theorem c03_transfer_offset (st : State) (prev : OutPoint) (base : Nat) (l : List (Nat × Nat))
+    (sc sc' : ScanState) (h : scanOld st prev base l sc = .ok sc') :
+    ∃ F, sc'.floating = sc.floating ++ F ∧
+      F.map (fun f => (f.offset, f.origin)) = l.map (fun p => (base + p.2, Origin.old p.1 ⟨prev, p.2⟩)) :=
+  scanOld_flotsam st prev base l sc sc' h
+
+/-- A new inscription: its entry is appended with the next sequence number; unless it is unbound
+its sat is the sat at its (pointer-adjusted) offset in the concatenated input ranges — no sat
+when the sat index is off; landing in an OP_RETURN output sets Burned, landing at the null
+outpoint sets Lost, and an unbound one has no sat, is charmed Unbound and is listed on the
+unbound pseudo-output at offset `unbound count`, never on an output. -/
+theorem c03_new_inscription (cfg : Cfg) (height time : Nat) (rs : Option (List (Nat × Nat)))
+    (fl : Flotsam) (sp : SatPoint) (opr : Bool) (tgt : Target) (ls ls' : LocState)
+    (hnew : isNew fl = true)
+    (h : updateInscriptionLocation cfg height time rs fl sp opr tgt ls = .ok ls') :
+    ∃ entry, ls'.st.entries = ls.st.entries ++ [entry] ∧ entry.seq = ls.st.entries.length ∧
+      entry.id = fl.id ∧
+      entry.sat = (if flUnbound fl then none else
+        match rs with | none => none | some r => (den r)[fl.offset]?) ∧
+      (opr = true → hasCharm entry.charms charmBurned = true) ∧
+      (sp.outpoint.isNull = true → hasCharm entry.charms charmLost = true) ∧
+      (flUnbound fl = true → hasCharm entry.charms charmUnbound = true ∧ entry.sat = none ∧
+        ls'.outs = ls.outs ∧ ls'.ctx.nullEntry = ls.ctx.nullEntry ∧
+        ls'.ctx.unboundEntry = some (pushIns (ls.ctx.unboundEntry.getD UtxoEntry.empty)
+          ls.st.entries.length ls.st.unbound) ∧
+        ls'.st.unbound = ls.st.unbound + 1) ∧
+      (flUnbound fl = false → ∀ vout, tgt = .output vout → ∃ e, ls.outs[vout]? = some e ∧
+        ls'.outs = ls.outs.set vout (pushIns e ls.st.entries.length sp.offset)) ∧
+      (flUnbound fl = false → tgt = .null →
+        ls'.ctx.nullEntry = some (pushIns (ls.ctx.nullEntry.getD UtxoEntry.empty)
+          ls.st.entries.length sp.offset)) := by
+  have spec := uil_spec cfg height time rs fl sp opr tgt ls ls' h
+  have hq : flSeq ls.st.entries.length fl = ls.st.entries.length := by
+    cases ho : fl.origin with
+    | old s o => simp [isNew, ho] at hnew
+    | new => simp [flSeq, ho]
+  cases spec.entry with
+  | old seq osp ho => simp [isNew, ho] at hnew
+  | new _ entry happ hseq hid hsat hb hl hu =>
+    have hp := spec.placed
+    rw [hq] at hp
+    refine ⟨entry, happ, hseq, hid, by rw [hsat]; rfl, hb, hl, ?_, ?_, ?_⟩
+    · intro hub
+      cases hp with
+      | unbound _ houts hnull hunb hcount =>
+        exact ⟨hu hub, by rw [hsat]; simp [flSat, hub], houts, hnull, hunb, hcount⟩
+      | output hf => rw [hub] at hf; cases hf
+      | null hf => rw [hub] at hf; cases hf
+    · intro hub vout ht
+      cases hp with
+      | unbound hf => rw [hub] at hf; cases hf
+      | output _ v e htgt hget houts => rw [ht] at htgt; cases htgt; exact ⟨e, hget, houts⟩
+      | null _ htgt => rw [ht] at htgt; cases htgt
+    · intro hub ht
+      cases hp with
+      | unbound hf => rw [hub] at hf; cases hf
+      | output _ v e htgt => rw [ht] at htgt; cases htgt
+      | null _ _ _ _ hnull => exact hnull
+
+/-- A transferred inscription keeps its entry (sequence number, sat); it only gains Burned when
+it lands in an OP_RETURN output; it is listed exactly where the output loop put it. -/
+theorem c03_old_inscription (cfg : Cfg) (height time : Nat) (rs : Option (List (Nat × Nat)))
+    (fl : Flotsam) (sp : SatPoint) (opr : Bool) (tgt : Target) (ls ls' : LocState)
+    (seq : Nat) (osp : SatPoint) (ho : fl.origin = .old seq osp) (e : InsEntry)
+    (he : ls.st.entries[seq]? = some e)
+    (h : updateInscriptionLocation cfg height time rs fl sp opr tgt ls = .ok ls') :
+    (∃ e', ls'.st.entries[seq]? = some e' ∧ e'.sat = e.sat ∧ e'.seq = e.seq ∧
+      (opr = true → hasCharm e'.charms charmBurned = true) ∧ (opr = false → e' = e)) ∧
+    (∀ i, i ≠ seq → ls'.st.entries[i]? = ls.st.entries[i]?) ∧
+    (∀ vout, tgt = .output vout → ∃ en, ls.outs[vout]? = some en ∧
+      ls'.outs = ls.outs.set vout (pushIns en seq sp.offset)) ∧
+    (tgt = .null → ls'.ctx.nullEntry = some (pushIns (ls.ctx.nullEntry.getD UtxoEntry.empty) seq sp.offset)) := by
+  have spec := uil_spec cfg height time rs fl sp opr tgt ls ls' h
+  have hq : flSeq ls.st.entries.length fl = seq := by simp [flSeq, ho]
+  have hub : flUnbound fl = false := by simp [flUnbound, ho]
+  have hp := spec.placed
+  rw [hq, hub] at hp
+  cases spec.entry with
+  | new hnew => simp [isNew, ho] at hnew
+  | old s o ho' hlen hother hsame =>
+    rw [ho] at ho'; cases ho'
+    refine ⟨hsame e he, hother, ?_, ?_⟩
+    · intro vout ht
+      cases hp with
+      | unbound hf => cases hf
+      | output _ v en htgt hget houts => rw [ht] at htgt; cases htgt; exact ⟨en, hget, houts⟩
+      | null _ htgt => rw [ht] at htgt; cases htgt
+    · intro ht
+      cases hp with
+      | unbound hf => cases hf
+      | output _ v en htgt => rw [ht] at htgt; cases htgt
+      | null _ _ _ _ hnull => exact hnull
+
+/-- Fee carry (non-coinbase transaction): a floating inscription at offset `k ≥ Σ outputs` is
+saved for the coinbase at offset `reward + k − Σ outputs`, behind everything saved earlier in the
+block, and the reward grows by exactly this transaction's fee `Σ inputs − Σ outputs`. -/
+theorem c03_fee_carry (cfg : Cfg) (height time : Nat) (tx : Tx) (rs : Option (List (Nat × Nat)))
+    (totalIn : Nat) (floating : List Flotsam) (st1 : State) (ls ls' : LocState)
+    (h : placeTx cfg height time tx rs false totalIn floating st1 ls = .ok ls') :
+    let r := assignOutputs tx.txid tx.outputs 0 0 (sortByKey (·.offset) floating) []
+    r.2.2 = (tx.outputs.map (·.value)).sum ∧ r.2.2 ≤ totalIn ∧
+    ls'.ctx.flotsam = ls.ctx.flotsam ++
+      r.2.1.map (fun f => { f with offset := ls.ctx.reward + f.offset - r.2.2 }) ∧
+    ls'.ctx.reward = ls.ctx.reward + (totalIn - r.2.2) ∧
+    ls'.ctx.lostSats = ls.ctx.lostSats ∧
+    (∀ f ∈ r.2.1, r.2.2 ≤ f.offset) :=
+  placeTx_carry cfg height time tx rs totalIn floating st1 ls ls' h
+
+/-- Lost: what the coinbase's outputs do not cover is placed at the null outpoint at offset
+`lostSats + k − Σ coinbase outputs` (and `c03_new_inscription` gives it the Lost charm). -/
+theorem c03_lost_placement (cfg : Cfg) (height time : Nat) (rs : Option (List (Nat × Nat))) (ov : Nat)
+    (fl : Flotsam) (rest : List Flotsam) (ls ls' : LocState)
+    (h : applyLost cfg height time rs ov (fl :: rest) ls = .ok ls') :
+    ∃ ls1, updateInscriptionLocation cfg height time rs fl
+        ⟨OutPoint.null, ls.ctx.lostSats + fl.offset - ov⟩ false .null ls = .ok ls1 ∧
+      applyLost cfg height time rs ov rest ls1 = .ok ls' :=
+  applyLost_cons cfg height time rs ov fl rest ls ls' h
+
+/-- After the coinbase the lost-sat counter has grown by the unclaimed part of the reward, and no
+flotsam remains saved. -/
+theorem c03_coinbase_lost_sats (cfg : Cfg) (height time : Nat) (tx : Tx) (rs : Option (List (Nat × Nat)))
+    (totalIn : Nat) (floating : List Flotsam) (st1 : State) (ls ls' : LocState)
+    (h : placeTx cfg height time tx rs true totalIn floating st1 ls = .ok ls') :
+    let out := (tx.outputs.map (·.value)).sum
+    out ≤ ls.ctx.reward ∧ ls'.ctx.lostSats = ls.ctx.lostSats + (ls.ctx.reward - out) ∧
+    ls'.ctx.reward = ls.ctx.reward ∧ ls'.ctx.flotsam = [] :=
+  placeTx_coinbase cfg height time tx rs totalIn floating st1 ls ls' h
+
+/-- `index_inscriptions` is the input scan followed by `placeTx` (the function the two theorems
+above speak about). -/
+theorem c03_index_inscriptions_is_scan_then_place (cfg : Cfg) (height time : Nat) (tx : Tx)
+    (inputs : List (TxIn × UtxoEntry)) (rs : Option (List (Nat × Nat))) (ls : LocState) :
+    indexInscriptions cfg height time tx inputs rs ls =
+      match scanInputs cfg ls.st (height ≥ cfg.jubileeHeight) tx.txid height (txTotalOut tx) inputs 0
+          { envelopes := tx.envelopes } with
+      | .panic s => .panic s
+      | .err e => .err e
+      | .ok sc =>
+        if sc.floating.any isNew ∧ sc.totalInputValue < txTotalOut tx then .panic "total_input_value - total_output_value"
+        else if sc.floating.any isNew ∧ sc.idCounter = 0 then .panic "division by zero"
+        else
+          placeTx cfg height time tx rs (txIsCoinbase tx) sc.totalInputValue (txFloating tx sc)
+            (if cfg.indexTransactions && !tx.envelopes.isEmpty then
+              { ls.st with txid2tx := AL.set ls.st.txid2tx tx.txid tx.size } else ls.st) ls :=
+  indexInscriptions_eq cfg height time tx inputs rs ls
+
+/-- Non-vacuity: on a concrete transaction (inscription 0 at offset 10 of the spent output, one
+envelope, outputs 600 (OP_RETURN) + 300, fee 100) the model places the new inscription at offset
+0 of output 0 on sat 5000000000, keeps inscription 0 on its sat at offset 10, charms both
+Burned, and adds the fee to the reward. -/
+example : exResult.isOk = true ∧ exCheck = true := ⟨exResult_ok, exCheck_true⟩
+
+example : revealOffset { (default : Envelope) with pointer := some 700 } 5 900 = 700 ∧
+    revealOffset { (default : Envelope) with pointer := some 900 } 5 900 = 5 := by decide
 
 end Ord.Index.Insloc
